@@ -1411,7 +1411,7 @@ class CodeGenerator(NodeVisitor):
         with_frame.symbols.analyze_node(node)
         self.enter_frame(with_frame)
         for target, expr in zip(node.targets, node.values, strict=False):
-            self.newline()
+            self.newline(node)
             self.visit(target, with_frame)
             self.write(" = ")
             self.visit(expr, frame)
@@ -2055,7 +2055,7 @@ class CodeGenerator(NodeVisitor):
         self, node: nodes.EvalContextModifier, frame: Frame
     ) -> None:
         for keyword in node.options:
-            self.writeline(f"context.eval_ctx.{keyword.key} = ")
+            self.writeline(f"context.eval_ctx.{keyword.key} = ", node)
             self.visit(keyword.value, frame)
             try:
                 val = keyword.value.as_const(frame.eval_ctx)
@@ -2069,7 +2069,7 @@ class CodeGenerator(NodeVisitor):
     ) -> None:
         old_ctx_name = self.temporary_identifier()
         saved_ctx = frame.eval_ctx.save()
-        self.writeline(f"{old_ctx_name} = context.eval_ctx.save()")
+        self.writeline(f"{old_ctx_name} = context.eval_ctx.save()", node)
         self.visit_EvalContextModifier(node, frame)
         for child in node.body:
             self.visit(child, frame)
